@@ -20,12 +20,12 @@ SHAPES = {
     'len': ['L', 'D', 'N', 'H', 'J'], 'int': ['I', 'E'], 'float': ['Z'], 'str': ['l', 'd', 'n'], 'dict': ['', 'D'], 'list': ['LD', 'N'],
     'startswith': ['SS', 'LS'], 'endswith': ['SS'], 'lower': ['S', 'L'], 'upper': ['S'], 'strip': ['S'], 'replace': ['SSS', 'LSS'],
     'match': ['LS', 'DS'], 'match_groups': ['LS'], 'match_all': ['LS', 'DS'],
-    'pretty': ['d', 'l', 'n', 'E', 'dS', 'lS'], 'keys': ['D', 'H', 'J'], 'values': ['D', 'H', 'J'], 'items': ['D', 'H', 'J'], 'sum': ['L', 'N', 'D'],
+    'pretty': ['d', 'l', 'n', 'E', 'dS', 'lS'], 'keys': ['D', 'H', 'J'], 'values': ['D', 'H', 'J'], 'items': ['D', 'H', 'J'], 'sum': ['L', 'N', 'D', 'Q'],
     'get': ['DS', 'DSL', 'DSN', 'HS', 'HX', 'HXL', 'JZ', 'JS', 'JZL'], '__getitem__': ['LZ', 'DS', 'NZ', 'LI', 'JZ', 'JS'],
-    'map': ['LF1', 'NF1', 'DF2', 'SF1', 'HF2'], 'filter': ['LF1', 'NF1'], 'reduce': ['LF2', 'NF2'], 'join': ['l', 'lS', 'n'], 'split': ['S', 'SS', 'LS'],
-    'round': ['Z', 'E', 'EZ'], 'floor': ['Z', 'E'], 'ceil': ['Z', 'E'], 'abs': ['I', 'E'], 'min': ['L', 'II', 'N'], 'max': ['L', 'II', 'N'],
+    'map': ['LF1', 'NF1', 'DF2', 'SF1', 'HF2'], 'filter': ['LF1', 'NF1'], 'reduce': ['LF2', 'NF2'], 'join': ['l', 'lS', 'n', 'nS'], 'split': ['S', 'SS', 'LS'],
+    'round': ['Z', 'E', 'EZ'], 'floor': ['Z', 'E'], 'ceil': ['Z', 'E'], 'abs': ['I', 'E'], 'min': ['L', 'II', 'N', 'Q', 'QQ'], 'max': ['L', 'II', 'N', 'Q', 'QQ'], 
     'rand': ['', 'L', 'N', 'II'],
-    'sorted': ['L', 'LK', 'LKB', 'LUB', 'N', 'D', 'DF2', 'DUB', 'H'], 'reversed': ['L', 'N', 'S'], 'enumerate': ['L', 'N', 'D', 'H'],
+    'sorted': ['L', 'LK', 'LKB', 'LUB', 'N', 'D', 'DF2', 'DUB', 'H', 'Q'], 'reversed': ['L', 'N', 'S'], 'enumerate': ['L', 'N', 'D', 'H'],
     'shuffle': ['L', 'N'], 'index_of': ['LI', 'NL'],
 }
 GENERIC = ['L', 'N', 'D', 'LL', 'LI', 'DS', 'LF1']
@@ -61,6 +61,8 @@ def _args(shape, a, b, c, n, flag):
             out.append(collections.defaultdict(list, {'p': a, 'q': [b]}))      # host mapping with __missing__
         elif k == 'X':
             out.append('absent')
+        elif k == 'Q':
+            out.append([a, None, b, None])          # a list with None entries
         elif k == 'J':
             out.append({1: a, 2: [b], (3, 4): 'c'})      # host dict with non-string keys
         elif k == 'S':
